@@ -53,6 +53,7 @@ type pendingOp struct {
 	// what had happened when the upload started
 	corruptionsAtStart int
 	discardsAtStart    float64
+	newsAtStart        int64
 	// comp
 	child  int
 	slices []slicing.BlobSlice
